@@ -19,7 +19,67 @@ CFGS = {
     'v7-vmsa-nosec': {'arch_version': 7, 'memory_system_architecture': 'VMSA', 'have_security_ext': False},
     # Secure accesses on a core that also has the Virtualization Extensions: Monitor mode with SCR.NS = 1 is still Secure - one stage, whatever HCR.VM says
     'v7-virt-secure': gen.CONFIGS['v7-virt'],
+    # a Non-secure guest (PL1&0 regime) under stage-2 translation: its stage-1 descriptor fetches and its output addresses are IPAs
+    'v7-virt-ns': gen.CONFIGS['v7-virt'],
 }
+S2DEV = (0x60000, 0x4000)          # device holding the stage-2 tables of the Non-secure guest cells
+
+
+def s2_tables(rng, big, ipas):
+    """stage-2 tables by construction for a set of intermediate physical addresses: VTCR/VTTBR + the table image. Two layouts: a 32-bit IPA space walked
+    from level 1 (SL0 = 1, T0SZ = 0) and a 25-bit one walked from level 2 (SL0 = 0, T0SZ = 7). The first 2 MiB get a level-3 table (4 KiB pages with
+    generated fates), the rest 2 MiB / 1 GiB blocks, further tables or nothing. Descriptors are written in HSCTLR.EE endianness."""
+    img = bytearray(S2DEV[1])
+    base = S2DEV[0]
+
+    def put(addr, d):
+        off = addr - base
+        if 0 <= off <= S2DEV[1] - 8:
+            img[off:off + 8] = d.to_bytes(8, 'big' if big else 'little')
+
+    def attrs(walk):
+        mem = rng.choice((15, 15, 15, 15, 5, 7, 0, 1, 13, 2 if rng.random() < 0.2 else 15)) if not walk or rng.random() < 0.2 else 15
+        hap = rng.choice((3, 3, 3, 1, 2, 0)) if not walk or rng.random() < 0.25 else 3
+        af = 0 if rng.random() < (0.1 if not walk else 0.04) else 1
+        return (mem << 2) | (hap << 6) | (rng.getrandbits(2) << 8) | (af << 10) | (rng.getrandbits(1) << 54)
+
+    def leaf(pa, level, walk=False):
+        shift_ = {1: 30, 2: 21, 3: 12}[level]
+        valid = 0 if rng.random() < (0.12 if not walk else 0.05) else 1
+        return valid | (2 if level == 3 else 0) | attrs(walk) | ((pa >> shift_ << shift_) & ((1 << 40) - 1))
+    wide = rng.random() < 0.6
+    l3a, l3b, l2 = base + 0x1000, base + 0x2000, base + 0x3000
+    walk_pages = {(TABLES[0] >> 12) + i for i in range(TABLES[1] >> 12)}
+    # level 3, first 2 MiB: identity mostly, sometimes remapped / missing
+    for pg in range(512):
+        r = rng.random()
+        pa = pg << 12
+        if pg not in walk_pages and r < 0.08:
+            pa = rng.choice((0x20000, 0x0, 0x8000, 0x1F000))
+        put(l3a + 8 * pg, leaf(pa, 3, pg in walk_pages) if (pg in walk_pages or pg in {a >> 12 for a in ipas if a < 0x200000} or r < 0.7) else 0)
+    for pg in range(512):
+        put(l3b + 8 * pg, leaf(rng.choice((0x20000, 0x12345000, pg << 12)), 3) if rng.random() < 0.6 else rng.getrandbits(64) & ~1)
+    if wide:
+        vtcr = (1 << 6) | (rng.getrandbits(6) << 8)
+        l1 = base
+        put(l1, 3 | l2)
+        for i in (1, 2, 3):
+            r = rng.random()
+            put(l1 + 8 * i, leaf(rng.choice((i << 30, 0, 0x40000000)), 1) if r < 0.5 else (3 | l2) if r < 0.7 else rng.getrandbits(64) & ~1)
+        vttbr = l1
+        n2 = 512
+    else:
+        vtcr = 7 | (rng.getrandbits(6) << 8)
+        l2 = base                      # 16 entries (IPA<24:21>), table aligned to 128 bytes
+        vttbr = l2
+        n2 = 16
+    put(l2, 3 | l3a)
+    for i in range(1, n2):
+        r = rng.random()
+        put(l2 + 8 * i, leaf(rng.choice((i << 21, 0, 0x12345000, 0xFFF00000)), 2) if r < 0.45 else (3 | l3b) if r < 0.65 else rng.getrandbits(64) & ~1 if r < 0.8 else 0)
+    return bytes(img), {'vtcr': vtcr, 'vttbr': vttbr | ((rng.getrandbits(8) << 48) if rng.random() < 0.5 else 0)}
+
+
 KINDS = ['invalid1', 'section', 'supersection', 'table-invalid2', 'table-large', 'table-small', 'garbage']
 
 
@@ -142,12 +202,25 @@ def translate_cell(acc, rng, cfgname, hooked):
     for va in vas:
         mva = va if (va >> 25) else va        # FCSE handled by choosing PID after the fact (see below)
         tb.map(mva, rng.choice(KINDS), rng.choice((0x20000, 0x0, 0x8000, 0x12345000, 0xFFF00000, rng.getrandbits(32))))
-    cpu = target.new_cpu(cfgov, hooked, [(0, 0x100), TABLES])
+    devs = [(0, 0x100), TABLES] + ([S2DEV] if cfgname == 'v7-virt-ns' else [])
+    cpu = target.new_cpu(cfgov, hooked, devs)
     target.budget_cpu(cpu, hooked)
     st_ = sys_state(rng, cfg, tb, n, big)
     if any((va >> 25) == 0 for va in vas) and rng.random() < 0.7:
         st_['fcseidr'] = 0
     st_['cpsr'] = gen.cpsr_value(m=gen.MODES['svc'])
+    if cfgname == 'v7-virt-ns':
+        hbig = rng.getrandbits(1)
+        s1on = rng.random() < 0.7
+        st_['scr'] = 1
+        st_['cpsr'] = gen.cpsr_value(m=gen.MODES[rng.choice(('svc', 'usr', 'irq', 'sys'))])
+        st_['sctlr'] = (st_['sctlr'] & ~1) | (1 if s1on else 0)
+        st_['hsctlr'] = (hbig << 25) | (rng.getrandbits(1) << 1)
+        st_['hcr'] = 1 | (rng.getrandbits(1) << 2) | ((rng.getrandbits(1) << 12) if not s1on else 0) | (rng.getrandbits(4) << 3)
+        image2, regs2 = s2_tables(rng, hbig, [0x20000, 0, 0x8000] + [a for a in tb.mem])
+        st_.update(regs2)
+        st_['mem2'] = image2
+        st_.update({'hsr': rng.getrandbits(32), 'hdfar': rng.getrandbits(32), 'hpfar': rng.getrandbits(28) << 4})
     if cfgname == 'v7-virt-secure':
         if rng.random() < 0.6:
             st_['cpsr'] = gen.cpsr_value(m=gen.MODES['mon'])
@@ -165,8 +238,8 @@ def translate_cell(acc, rng, cfgname, hooked):
     held = None          # (descriptor object, what it said when it was returned): a result stays what it was after later translations
     for va in vas + [v ^ rng.choice((0x1000, 0x100000, 0x10000)) for v in vas[:3]]:
         ispriv, iswrite = bool(rng.getrandbits(1)), bool(rng.getrandbits(1))
-        target.apply_state(cpu, {'dfsr': pre['dfsr'], 'dfar': pre['dfar']})
-        M = Machine(pre, [(0, 0x100), TABLES], cfg, hooked)
+        target.apply_state(cpu, {k_: pre[k_] for k_ in ('dfsr', 'dfar', 'hsr', 'hdfar', 'hpfar') if k_ in pre})
+        M = Machine(pre, devs, cfg, hooked)
         M.walk_reads = 0
         try:
             pa, mt = mmu.translate_v(M, va, ispriv, iswrite, 4, True, want_attrs=True)
@@ -234,14 +307,14 @@ def shard_translate(seed, count):
     acc = Acc()
     rng = random.Random(seed)
     for _ in range(count):
-        cfgname = rng.choice(('v7-vmsa', 'v7-vmsa', 'v6-vmsa', 'v7-vmsa-nosec', 'v7-lpae', 'v7-virt-secure'))
+        cfgname = rng.choice(('v7-vmsa', 'v7-vmsa', 'v6-vmsa', 'v7-vmsa-nosec', 'v7-lpae', 'v7-virt-secure', 'v7-virt-ns', 'v7-virt-ns'))
         translate_cell(acc, rng, cfgname, rng.random() < 0.6)
     return acc
 
 
 # ------------------------------------------------------------------------------------------------ long descriptors (direct)
-def ld_cell(acc, rng, hooked, prop='C15', unpriv_only=False):
-    cfgov = CFGS['v7-lpae']
+def ld_cell(acc, rng, hooked, prop='C15', unpriv_only=False, hyp=False):
+    cfgov = CFGS['v7-virt-secure'] if hyp else CFGS['v7-lpae']
     cfg = diff.full_cfg(cfgov)
     t0sz, t1sz = rng.choice((0, 0, 1, 2, 3, 7)), rng.choice((0, 0, 1, 2, 5))
     big = 1 if rng.random() < 0.2 else 0
@@ -252,9 +325,13 @@ def ld_cell(acc, rng, hooked, prop='C15', unpriv_only=False):
         d = rng.choice((1, 1, 1, 0)) | (0 if level < 3 else 2) | (rng.randrange(8) << 2) | (rng.getrandbits(1) << 5) | (rng.choice((0, 1, 2, 3)) << 6) | (rng.getrandbits(2) << 8) | \
             ((1 if rng.random() < 0.8 else 0) << 10) | (rng.getrandbits(1) << 11) | (rng.getrandbits(3) << 52)
         shift_ = {1: 30, 2: 21, 3: 12}[level]
+        if hyp and rng.random() < 0.85:
+            d = (d | (1 << 6)) & ~((1 << 11) | (1 << 53))          # the PL2 regime: AP<1> SBO, nG and PXN SBZ (otherwise UNPREDICTABLE: totality only)
         return d | ((pa >> shift_ << shift_) & ((1 << 40) - 1))
 
     def desc_table(nxt):
+        if hyp:
+            return 3 | nxt | ((rng.getrandbits(5) << 59) & ~((1 << 59) | (1 << 61)) if rng.random() < 0.3 else 0) | ((rng.getrandbits(5) << 59) if rng.random() < 0.05 else 0)
         return 3 | nxt | (rng.getrandbits(5) << 59 if rng.random() < 0.3 else 0)
     vas = [rng.getrandbits(32) for _ in range(3)] + [rng.randrange(0, 8) << 30 >> 0 & M32 | rng.getrandbits(20) for _ in range(3)]
     cpu = target.new_cpu(cfgov, hooked, [(0, 0x100), TABLES])
@@ -264,12 +341,21 @@ def ld_cell(acc, rng, hooked, prop='C15', unpriv_only=False):
            # bits <55:48> of a 64-bit TTBR hold the ASID and are not part of the table base
            'ttbr0_64': base0 | ((rng.getrandbits(8) << 48) if rng.random() < 0.5 else 0), 'ttbr1_64': base1 | ((rng.getrandbits(8) << 48) if rng.random() < 0.5 else 0), 'mair0': rng.choice((0x00440400, rng.getrandbits(32), 0xFF440400)), 'mair1': rng.getrandbits(32),
            'dfsr': rng.getrandbits(14), 'dfar': rng.getrandbits(32), 'scr': 0, 'cpsr': gen.cpsr_value(m=gen.MODES['svc']), 'fcseidr': 0}
+    if hyp:
+        # the PL2 stage-1 regime: HTTBR / HTCR / HMAIR / HSCTLR, faults reported in HSR / HDFAR and taken to Hyp mode; the PL1&0 registers hold noise
+        t1sz = 0
+        st_.update({'httbr': base0, 'htcr': t0sz | (rng.getrandbits(6) << 8), 'hmair0': st_['mair0'], 'hmair1': st_['mair1'], 'hsctlr': 1 | (big << 25) | (rng.getrandbits(1) << 1),
+                    'scr': 1, 'cpsr': gen.cpsr_value(m=gen.MODES['hyp']), 'hsr': rng.getrandbits(32), 'hdfar': rng.getrandbits(32), 'hpfar': rng.getrandbits(28) << 4,
+                    'sctlr': rng.getrandbits(1) | (rng.getrandbits(1) << 25), 'ttbcr': rng.getrandbits(1) << 31, 'mair0': rng.getrandbits(32), 'mair1': rng.getrandbits(32),
+                    'hcr': rng.getrandbits(28) & ~(1 << 27)})
     image = bytearray(TABLES[1])
     for va in vas:
         # choose region
         if t0sz == 0 or (va >> (32 - t0sz)) == 0:
             level = 1 if (t0sz >> 1) == 0 else 2
             base, start = base0, 31 - t0sz
+        elif hyp:
+            continue
         elif (t1sz == 0) or (va >> (32 - t1sz)) == (1 << t1sz) - 1:
             level = 1 if (t1sz >> 1) == 0 else 2
             base, start = base1, 31 - t1sz
@@ -304,7 +390,9 @@ def ld_cell(acc, rng, hooked, prop='C15', unpriv_only=False):
         ispriv, iswrite = bool(rng.getrandbits(1)), bool(rng.getrandbits(1))
         if unpriv_only:
             ispriv = False
-        target.apply_state(cpu, {'dfsr': pre['dfsr'], 'dfar': pre['dfar']})
+        if hyp:
+            ispriv = True
+        target.apply_state(cpu, {k_: pre[k_] for k_ in ('dfsr', 'dfar', 'hsr', 'hdfar', 'hpfar') if k_ in pre})
         M = Machine(pre, [(0, 0x100), TABLES], cfg, hooked)
         try:
             pa, mt = mmu.translate_v(M, va, ispriv, iswrite, 4, True, want_attrs=True)
@@ -327,12 +415,12 @@ def ld_cell(acc, rng, hooked, prop='C15', unpriv_only=False):
         except Exception as e:
             got = ('notimpl', repr(e), None) if target.escape_ok(e) else ('host-error', repr(e), None)
         post = target.snapshot(cpu, False)
-        acc.case(ref[0] != 'skip', ('ld', hooked, bytes(image), st_['ttbcr'], va, ispriv, iswrite), cls='ld:' + ref[0] + (':' + str(ref[1]) + str(ref[2] or '') if ref[0] == 'abort' else ''),
+        acc.case(ref[0] != 'skip', ('ld', hooked, hyp, bytes(image), st_['ttbcr'], va, ispriv, iswrite), cls=('hyp-ld:' if hyp else 'ld:') + ref[0] + (':' + str(ref[1]) + str(ref[2] or '') if ref[0] == 'abort' else ''),
                  sample=lambda: {'T0SZ': t0sz, 'T1SZ': t1sz, 'va': '%#x' % va, 'reference': list(ref), 'hooked': hooked})
         if ref[0] == 'skip':
             acc.excluded += 1
             if got[0] in ('host-error', 'hang'):
-                acc.violation(prop + ':ld:' + got[0], {'ld': True, 'hooked': hooked, 'state': jsonable_state(st_), 'va': va, 'ispriv': ispriv, 'iswrite': iswrite}, {'got': list(got)})
+                acc.violation(prop + ':ld:' + got[0], {'ld': True, 'hyp': hyp, 'hooked': hooked, 'state': jsonable_state(st_), 'va': va, 'ispriv': ispriv, 'iswrite': iswrite}, {'got': list(got)})
             continue
         bad = None
         if ref[0] == 'notimpl':
@@ -345,15 +433,15 @@ def ld_cell(acc, rng, hooked, prop='C15', unpriv_only=False):
             if dd:
                 bad = {'state(expected,observed)': e1.fmt_diff(dd), 'reference': list(ref)}
         if bad:
-            acc.violation(prop + ':ld:%s-vs-%s' % (':'.join(str(x) for x in ref[:3] if x is not None and not isinstance(x, int) or ref[0] == 'abort' and isinstance(x, int)), got[0] + (':' + str(got[1]) if got[0] == 'abort' else '')),
-                          {'ld': True, 'hooked': hooked, 'state': jsonable_state(st_), 'va': va, 'ispriv': ispriv, 'iswrite': iswrite}, bad)
+            acc.violation(prop + (':hyp-ld:' if hyp else ':ld:') + '%s-vs-%s' % (':'.join(str(x) for x in ref[:3] if x is not None and not isinstance(x, int) or ref[0] == 'abort' and isinstance(x, int)), got[0] + (':' + str(got[1]) if got[0] == 'abort' else '')),
+                          {'ld': True, 'hyp': hyp, 'hooked': hooked, 'state': jsonable_state(st_), 'va': va, 'ispriv': ispriv, 'iswrite': iswrite}, bad)
 
 
 def shard_ld(seed, count):
     acc = Acc()
     rng = random.Random(seed)
     for _ in range(count):
-        ld_cell(acc, rng, rng.random() < 0.7)
+        ld_cell(acc, rng, rng.random() < 0.7, hyp=rng.random() < 0.3)
     return acc
 
 
@@ -400,6 +488,25 @@ def tweak(rng, row, w, case):
         st_[k] = (rng.choice(targets) + rng.choice((0, 0, 0, 1, 2, -4, 4, 8))) & M32
     if 'm' in f and f.get('m', 15) <= 14 and f.get('m') != f.get('n'):
         st_[gen.bank_key(f['m'], mode)] = rng.choice((0, 4, 8, 0x10))
+    if row.n == 32 and e1prop.ROWS[row.name][0] == 't32' and rng.random() < 0.12:
+        # a 32-bit Thumb instruction whose halfwords lie in two pages (PC = 0x30FFE): the first MiB is mapped by small pages instead of a section, the
+        # page of the second halfword is identity-mapped, mapped somewhere else (the data device), missing or protected - its fetch is translated
+        # and checked on its own
+        l2base = tb.l2next
+        tb.l2next += 0x400
+        patch = {tb.l1_entry_addr(0): 0b01 | l2base}
+        for pg in range(256):
+            patch[l2base + 4 * pg] = 0b10 | (3 << 4) | (3 << 2) | (pg << 12)
+        fate = rng.choice(('identity', 'elsewhere', 'elsewhere', 'invalid', 'noaccess', 'privonly'))
+        patch[l2base + 4 * 0x31] = {'identity': 0b10 | (3 << 4) | (3 << 2) | (0x31 << 12), 'elsewhere': 0b10 | (3 << 4) | (3 << 2) | 0x20000, 'invalid': rng.getrandbits(30) << 2,
+                                    'noaccess': 0b10 | (3 << 2) | (0x31 << 12), 'privonly': 0b10 | (1 << 4) | (3 << 2) | (0x31 << 12)}[fate]
+        for addr, wd in sorted(patch.items()):
+            case['poke'].append([addr, wd.to_bytes(4, 'big' if big else 'little').hex()])
+        case['mems'].append([0x30F00, 0x200])
+        code = case['poke'][0][1]
+        case['poke'][0] = [0x30FFE, code]
+        st_['R.PC'] = 0x30FFE
+        st_['sctlr'] &= ~(1 << 29)            # (AP<0> means what it says: AFE off)
 
 
 def classify(res, case):
@@ -442,9 +549,10 @@ def _dispatch(fn, args):
 def replay(case, bucket=None):
     if 'va' in case:
         hooked = case['hooked']
-        cfgov = CFGS['v7-lpae'] if case.get('ld') else CFGS[case['cfgname']]
+        cfgov = (CFGS['v7-virt-secure'] if case.get('hyp') else CFGS['v7-lpae']) if case.get('ld') else CFGS[case['cfgname']]
         cfg = diff.full_cfg(cfgov)
-        cpu = target.new_cpu(cfgov, hooked, [(0, 0x100), TABLES])
+        devs = [(0, 0x100), TABLES] + ([S2DEV] if case.get('cfgname') == 'v7-virt-ns' else [])
+        cpu = target.new_cpu(cfgov, hooked, devs)
         target.budget_cpu(cpu, hooked)
         st_ = {k: (bytes.fromhex(v) if k.startswith('mem') else v) for k, v in case['state'].items()}
         target.apply_state(cpu, st_)
@@ -457,7 +565,7 @@ def replay(case, bucket=None):
             except Exception:
                 return []
             return ['earlier result overwritten'] if was != (d1.paddress.physicaladdress, d1.memattrs.type) else []
-        M = Machine(pre, [(0, 0x100), TABLES], cfg, hooked)
+        M = Machine(pre, devs, cfg, hooked)
         try:
             ref = ('ok',) + tuple(mmu.translate_v(M, case['va'], case['ispriv'], case['iswrite'], 4, True, want_attrs=True))
         except Abort as ab:
